@@ -106,6 +106,17 @@ Theorem C09_has_free_verify_exact :
 Proof. exact fv_enc. Qed.
 Print Assumptions C09_has_free_verify_exact.
 
+(* pk_cost (the figure the context limit checks read) against script_size (exact, C04):
+   equal on the class size_wf; FALSE for uncompressed keys as written (finding repair:unc) *)
+Theorem C09_pk_cost_is_size_partial :
+  forall fx c m, size_wf fx c m = true -> pk_cost (ext_of_gen fx c m) = script_size_gen fx c m.
+Proof. exact ext_pk_cost_is_size. Qed.
+Print Assumptions C09_pk_cost_is_size_partial.
+Theorem C09_pk_cost_refuted_unc :
+  pk_cost (ext_of cx_legacy (MCheck (MPkK 6))) < script_size cx_legacy (MCheck (MPkK 6)).
+Proof. exact ext_pk_cost_refuted_unc. Qed.
+Print Assumptions C09_pk_cost_refuted_unc.
+
 (* ---- executed resources (DESIGN 5/C09 exec_bounds) ----
    PARTIAL. Proved: the instrumented semantics used by the per-run oracle computes the same final
    state as the Script semantics (so its counters describe the real execution), for all scripts,
